@@ -17,7 +17,7 @@ def check(rep, tier, seed):
     # k = 1..12 links, incl. zero-sample and single-page links (handmade_link shapes 0..2, layout 1)
     specs = []
     for i in range(10):
-        specs.append((1000 + i, rng.choice([1, 2, 6]), rng.choice([8000, 22050, 44100, 48000]), rng.choice([0.0, 0.4]),
+        specs.append((rng.choice([1000, 0x7ffffff0, 0x80000000, 0xc0000000, 0xffffff00]) + i, rng.choice([1, 2, 6]), rng.choice([8000, 22050, 44100, 48000]), rng.choice([0.0, 0.4]),
                       rng.choice([0, 1, 100, 3000, 9000]), rng.below(5), rng.below(1 << 30), rng.choice([0, 1, 2])))
     enc = vfgen.encode_links(specs, wd)
     cases = []
@@ -33,7 +33,7 @@ def check(rep, tier, seed):
                     d, N = enc[j], specs[j][4]
                     kinds.append("enc")
             if d is None:
-                d, m = vfgen.handmade_link(rng, 7000 + k * 16 + li, small=True)
+                d, m = vfgen.handmade_link(rng, rng.choice([7000, 7000, 0x7fff8000, 0x80000000, 0xffe00000]) + (k * 16 + li) % 30000, small=True)
                 N = m["N"]
                 kinds.append("hand")
             data += d
